@@ -1217,6 +1217,16 @@ static const CFun CFUNS[] = {
     { "c.tan", 0, 32, 2, [](cld a, cld, cld, long double) { return std::tan(a); } },
     { "c.tanh", 0, 32, 2, [](cld a, cld, cld, long double) { return std::tanh(a); } },
     { "c.pow", 4, 32, 1, [](cld a, cld, cld, long double y) { return std::pow(a, cld(y, 0)); } },
+    // other spellings of the complex batch class
+    { "c.incr.op", 0, 8, 0, [](cld a, cld, cld, long double) { return a + cld(1, 0); } },
+    { "c.decr.op", 0, 8, 0, [](cld a, cld, cld, long double) { return a - cld(1, 0); } },
+    { "c.add.real", 1, 8, 0, [](cld a, cld b, cld, long double) { return a + cld(b.real(), 0); } },
+    { "c.mul.real", 1, 8, 1, [](cld a, cld b, cld, long double) { return a * cld(b.real(), 0); } },
+    { "c.sub.assign", 1, 8, 0, [](cld a, cld b, cld, long double) { return a - b; } },
+    { "c.div.assign", 1, 8, 1, [](cld a, cld b, cld, long double) { return a / b; } },
+    { "c.get", 0, 0, 0, [](cld a, cld, cld, long double) { return a; } },
+    { "c.broadcast", 0, 0, 0, [](cld a, cld, cld, long double) { return a; } },
+    { "c.mul.scalar", 0, 8, 1, [](cld a, cld, cld, long double) { return a * cld(2, -3); } },
     // interleaved memory forms: element i of an array of std::complex<T> <-> lane i of real() / imag(), exactly
     { "c.load_unaligned", 0, 0, 0, [](cld a, cld, cld, long double) { return a; } },
     { "c.load_aligned", 0, 0, 0, [](cld a, cld, cld, long double) { return a; } },
